@@ -171,6 +171,10 @@ Definition py_is_enum_member (v : pyval) : res bool :=
   | _ => Ok false
   end.
 
+(* the class of a class object: some metaclass (type, StructMeta, FieldMeta ...), known only as "the metaclass of
+   the class named ..": it is none of the builtin classes of plain data *)
+Definition meta_tag : pystr := s2p "metaclass-of".
+
 (* v.__class__ / type(v) *)
 Definition sv_class_of (x : world) (v : pyval) : res pyval :=
   match v with
@@ -178,6 +182,7 @@ Definition sv_class_of (x : world) (v : pyval) : res pyval :=
   | PEnum c _ _ => Ok (ref c)
   | POther t a =>
       if tag_is t inst_tag then match w_icls x a with Some c => Ok (ref c) | None => Raise Unmodelled end
+      else if tag_is t ref_tag || tag_is t bltn_tag then Ok (POther meta_tag a)     (* the metaclass of the class a *)
       else Raise Unmodelled
   | PNone => Ok (bref (s2p "NoneType"))
   | PBool _ => Ok (bref (s2p "bool"))
@@ -201,7 +206,17 @@ Definition obj_kind (v : pyval) : option (pystr * pystr) :=
   | _ => None
   end.
 
+Definition is_meta (v : pyval) : bool := match v with POther t _ => tag_is t meta_tag | _ => false end.
+Definition is_data_builtin (v : pyval) : bool :=
+  match v with
+  | POther t n => tag_is t bltn_tag && match builtin_class n with Some _ => true | None => false end
+  | _ => false
+  end.
+
 Definition sv_is (a b : pyval) : res bool :=
+  if is_meta a then (if is_data_builtin b then Ok false else Raise Unmodelled)
+  else if is_meta b then (if is_data_builtin a then Ok false else Raise Unmodelled)
+  else
   match obj_kind a, obj_kind b with
   | Some (t1, n1), Some (t2, n2) => Ok (pystr_eqb t1 t2 && pystr_eqb n1 n2)
   | Some _, None =>
